@@ -283,3 +283,29 @@ Proof.
   - repeat (first [apply Forall_nil | apply Forall_cons]); unfold thread_in; simpl;
     repeat split; auto; repeat (first [apply Forall_nil | apply Forall_cons]); simpl; auto.
 Qed.
+
+(* ---- eviction interrupted by its work timeout ---- *)
+(** The pass checks the timer once per account: what it has done when the timer expires is the
+    complete eviction of some of the old accounts ([done], any sublist of the selected ones).
+    Any such partial pass keeps the invariant. *)
+Theorem evict_interrupted_inv : forall U m accs k,
+  PoolInv (pl m) -> pool_in U (pl m) ->
+  PoolInv (pl (evict m (firstn k accs))) /\ pool_in U (pl (evict m (firstn k accs))).
+Proof. intros U m accs k I P. apply evict_inv; auto. Qed.
+
+(** A pass that could stop in the middle of one account's list (after [k] of its transactions
+    have been taken out of the hash cache and counted down, list still in place) breaks it. *)
+Definition evict_midlist (m : mstate) (a : addr) (k : nat) : mstate :=
+  let p := pl m in
+  match lookup a (lists p) with
+  | None => m
+  | Some l => with_pool m (mkPool (lists p) (cache_del_all (firstn k (txs l)) (cache p))
+                                  (plen p - Z.of_nat (length (firstn k (txs l)))) (porphan p))
+  end.
+
+Theorem evict_midlist_refuted :
+  exists m a k, PoolInv (pl m) /\ ~ PoolInv (pl (evict_midlist m a k)).
+Proof.
+  exists ex_m, 0%N, 1%nat. split; [apply ex_pool_inv|].
+  intros I. pose proof (inv_len _ I) as L. vm_compute in L. discriminate.
+Qed.
